@@ -266,6 +266,35 @@ static inline int64_t __attribute__((unused)) mt_real_ns(void)
 	return (int64_t)ts.tv_sec * 1000000000LL + ts.tv_nsec;
 }
 
+/*
+ * After every loop thread of a case has been joined (each ran iv_deinit or exited), no per-thread descriptor of the library may
+ * be left: an epoll instance or a timer descriptor that is still open belongs to a thread that no longer exists.  (Event
+ * descriptors can be process-wide and are judged by the growth rule of C18 instead.)
+ */
+#include <dirent.h>
+static void __attribute__((unused)) mt_check_thread_fds(const char *method)
+{
+	DIR *d = opendir("/proc/self/fd");
+	struct dirent *de;
+	char path[64], tgt[128];
+
+	if (d == NULL)
+		return;
+	while ((de = readdir(d)) != NULL) {
+		long n;
+		if (de->d_name[0] < '0' || de->d_name[0] > '9')
+			continue;
+		snprintf(path, sizeof(path), "/proc/self/fd/%s", de->d_name);
+		n = readlink(path, tgt, sizeof(tgt) - 1);
+		if (n <= 0)
+			continue;
+		tgt[n] = 0;
+		if (strstr(tgt, "[timerfd]") != NULL || strstr(tgt, "[eventpoll]") != NULL)
+			mon_viol("C18", "thread-descriptor-left", method, "descriptor %s (%s) is still open although every loop thread of the case has been torn down", de->d_name, tgt);
+	}
+	closedir(d);
+}
+
 static void mt_learn_method(void)
 {
 	iv_init();
